@@ -41,6 +41,23 @@ def message(n):
     return bytes((i * 13 + 5) % 256 for i in range(n))
 
 
+def sig_tamperings(sig, modulus=None):
+    """Byte strings that are NOT a signature of the message although they are close to one: RFC 8017
+    8.1.2/8.2.2 step 1 (wrong length => invalid) and s >= n included."""
+    out = [('flipped-signature', flip(sig, 5)), ('flipped-first', flip(sig, 0)),
+           ('flipped-last', flip(sig, len(sig) - 1)), ('truncated-signature', sig[:-1]),
+           ('truncated-front', sig[1:]), ('zero-prepended', b'\x00' + sig),
+           ('zeros-prepended', b'\x00' * 8 + sig), ('zero-appended', sig + b'\x00'), ('empty', b'')]
+    if sig[:1] == b'\x00':
+        out.append(('leading-zero-stripped', sig.lstrip(b'\x00')))
+    if modulus is not None:
+        v = int.from_bytes(sig, 'big') + modulus
+        out.append(('plus-modulus', v.to_bytes((v.bit_length() + 7) // 8, 'big')))
+        if v.bit_length() <= len(sig) * 8:
+            out.append(('plus-modulus-same-length', v.to_bytes(len(sig), 'big')))
+    return out
+
+
 def flip(b, i=0):
     if not b:
         return b
@@ -318,9 +335,9 @@ def sign_grid(part):
                                digital_signature_algorithm=kw['digital_signature_algorithm'])
                     for what, k_, m_, s_, want in (('same', pub_der, m, sig, True),
                                                   ('flipped-message', pub_der, flip(m) if m else b'x', sig, False),
-                                                  ('flipped-signature', pub_der, m, flip(sig, 5), False),
-                                                  ('truncated-signature', pub_der, m, sig[:-1], False),
-                                                  ('other-key', other_pub, m, sig, False)):
+                                                  ('other-key', other_pub, m, sig, False)) + tuple(
+                            (w_, pub_der, m, s2, False) for w_, s2 in sig_tamperings(
+                                sig, pub.public_numbers().n)):
                         ok, err = try_call(ce.verify_signature, signing_key=k_, message=m_, signature=s_, **vkw)
                         part.count('cases')
                         if ok is None and want is False and isinstance(err, W.exceptions.KmipError):
@@ -488,9 +505,12 @@ def request_grid(part):
                 continue
             for what, m_, s_, want in (('same', b'message', sig, E.ValidityIndicator.VALID),
                                        ('other-message', b'messagf', sig, E.ValidityIndicator.INVALID),
-                                       ('flipped-signature', b'message', flip(sig, 9), E.ValidityIndicator.INVALID)):
+                                       ('flipped-signature', b'message', flip(sig, 9), E.ValidityIndicator.INVALID)) + \
+                    tuple((w_, b'message', s2, E.ValidityIndicator.INVALID) for w_, s2 in sig_tamperings(sig)):
                 v = w.do((1, 4), W.p_signature_verify(pub, sp, m_, s_))
                 part.count('cases')
+                if want == E.ValidityIndicator.INVALID and not v.items[0].ok():
+                    continue        # refusing a malformed signature outright is as good as INVALID
                 if v.pfind(T.VALIDITY_INDICATOR) != want.value:
                     part.violation("request-verify|%s|%s" % (what, padn), "validity %s, expected %s (%s)" % (
                         v.pfind(T.VALIDITY_INDICATOR), want.name, v.brief()), {'grid': 'requests'})
@@ -783,7 +803,9 @@ def request_grid_wide(part, tier='quick'):
                                 ('same', pub_, b'message', sig, E.ValidityIndicator.VALID),
                                 ('other-message', pub_, b'messagf', sig, E.ValidityIndicator.INVALID),
                                 ('flipped-signature', pub_, b'message', flip(sig, 7), E.ValidityIndicator.INVALID),
-                                ('other-pair', other_pub, b'message', sig, E.ValidityIndicator.INVALID)):
+                                ('other-pair', other_pub, b'message', sig, E.ValidityIndicator.INVALID)) + tuple(
+                                (w_, pub_, b'message', s2, E.ValidityIndicator.INVALID)
+                                for w_, s2 in sig_tamperings(sig)[1:]):
                             if len(pairs) == 1 and what == 'other-pair':
                                 continue
                             v_ = w.do(V, W.p_signature_verify(k_, sp, m_, s_))
@@ -857,7 +879,7 @@ def run(tier, seed):
              "16,12,4,8,13, each with 5-6 tamperings; 6 HMACs x 5 key lengths x 6 data lengths and CMAC "
              "over 6 block ciphers; 4 derivation methods x 6 hashes x lengths x data x salt x iterations "
              "(+HASH, ENCRYPT); RFC 3394 for 3 KEK sizes x 6 material lengths; sign/verify for 6 hashes x "
-             "2 paddings x 2 ways of naming the algorithm x 5 verification variants; key generation for 11 "
+             "2 paddings x 2 ways of naming the algorithm x 14 verification variants (flips, truncations, zero octets prepended/appended, empty, s+n); key generation for 11 "
              "algorithms x lengths x 3 consecutive calls; and the same laws through KMIP requests - a "
              "narrow grid (AES-128) and a wide one on ONE long-lived engine: Encrypt/Decrypt for every "
              "algorithm x key size x mode x padding x 3 lengths, 6 HMACs on a key and on secret data in "
